@@ -102,3 +102,82 @@ fn c18_try_update_lock_free() {
     kani::cover!(r);
     kani::cover!(!r);
 }
+
+// ---- interference: writes that COMPLETE while the reader is mid-read ---------------------------------
+// Every atomic load the reader performs is a preemption point: the stub below lets a writer (which holds the
+// lock for the whole harness and never releases it) run zero or more complete `advance_once` updates right
+// before the load -- the real writer code, on the real object -- up to a budget of W writes per snapshot call.
+// `Mutex::lock` is replaced by a function that fails verification: whatever its retry history, the reader must
+// never try to take the writer lock (it would wait forever: the writer is stopped holding it).
+use std::sync::{LockResult, MutexGuard};
+
+const W: u32 = @@W@@;
+
+static mut ABT: *const AtomicBaseTime = std::ptr::null();
+static mut TOKEN: *mut WriteToken = std::ptr::null_mut();
+static mut BUDGET: u32 = 0;
+static mut WRITES: u32 = 0;
+static mut READER_RUNNING: bool = false;
+
+fn forbidden_lock<'a, T>(_m: &'a Mutex<T>) -> LockResult<MutexGuard<'a, T>> {
+    panic!("VERIF: blocking Mutex::lock() reached on a path that must never wait for a writer");
+}
+
+fn load_with_interference(a: &AtomicU64, order: Ordering) -> u64 {
+    unsafe {
+        if READER_RUNNING && BUDGET > 0 && kani::any() {
+            READER_RUNNING = false; // the writer's own loads are not preemption points of the reader
+            BUDGET -= 1;
+            let t: u64 = match WRITES {
+                0 => 100,
+                1 => 101,
+                2 => 102,
+                3 => 103,
+                4 => 104,
+                _ => 105,
+            };
+            WRITES += 1;
+            let _ = (*ABT).advance_once(&mut *TOKEN, (t, VOUCH.vouch(t)));
+            READER_RUNNING = true;
+        }
+    }
+    a.fetch_add(0, order)
+}
+
+#[kani::proof]
+#[kani::unwind(@@UW@@)]
+#[kani::stub(std::sync::Mutex::lock, forbidden_lock)]
+#[kani::stub(std::sync::atomic::Atomic::<u64>::load, load_with_interference)]
+fn c18_snapshot_under_interfering_writes() {
+    let (abt, _pair) = any_state();
+    let mut guard = abt.lock.try_lock().unwrap(); // the writer: holds the lock for good
+    unsafe {
+        ABT = &abt;
+        TOKEN = &mut *guard;
+        BUDGET = W;
+        WRITES = 0;
+        READER_RUNNING = true;
+    }
+    let got = abt.snapshot(); // must return (unwinding assertion), must not panic, must not reach Mutex::lock
+    unsafe {
+        READER_RUNNING = false;
+    }
+    // a pair that was published as a unit (snapshot's own assertion checks the voucher)
+    assert!(crate::BASE_TIME_CHECK.check(got.0, got.1));
+    kani::cover!(unsafe { WRITES } == W);
+    kani::cover!(unsafe { WRITES } == 0);
+    drop(guard);
+}
+
+/// try_update never reaches the blocking lock() either, whatever the lock's state.
+#[kani::proof]
+#[kani::unwind(2)]
+#[kani::stub(std::sync::Mutex::lock, forbidden_lock)]
+fn c18_try_update_never_blocks() {
+    let (abt, _pair) = any_state();
+    let held: bool = kani::any();
+    let guard = if held { Some(abt.lock.try_lock().unwrap()) } else { None };
+    let r = abt.try_update(vouched(kani::any()));
+    assert!(!(held && r));
+    drop(guard);
+}
